@@ -51,8 +51,8 @@ CLAIMS = {
              "the modelled eval of a derived point / expression / constraint / LMI is the same linear / bilinear combination "
              "of its operands' values (objects built after the solve included); if the leaf vectors reproduce G+ the value is "
              "the Gram reading the solver saw; leaf i gets column i / entry i; at a point optimal in tau the objective equals "
-             "the smallest metric. The unguarded statement is refuted for derived points evaluated after a new leaf point was "
-             "created (known finding F-C02a). Tie: random programs run on the real code with an injected rational solution "
+             "the smallest metric. (The former finding F-C02a - eval after a new leaf point raised - was repaired by a fix: commit; "
+             "the narrow remainder F-C02b, the dimension of the EMPTY combination, is a listed finding.) Tie: random programs run on the real code with an injected rational solution "
              "(fake wrapper registered from outside), values compared with the model; real SCS instances measured.",
         ref="DESIGN.md 5.2",
         note="numpy eigh / clipping / QR are trusted and measured (P^T P vs G+); solver optimality is an explicit hypothesis "
@@ -80,12 +80,13 @@ CLAIMS = {
              "symmetric, so halving loses nothing); each of the 41 formulas REGENERATED from the sources denotes exactly the "
              "literature's reference condition; for every shipped plan the generated set is equivalent to the documented "
              "conditions on all required pairs, and is invariant under permutations of the recorded samples (LMIs up to "
-             "congruence). Refuted with witnesses where PEPit is wrong: skew-symmetric diagonal conditions (F-C04b), "
-             "block-smooth tuple equality (F-C04c). Tie: translator + exact correspondence of set_class_constraints() on "
+             "congruence); sufficiency (every data set satisfying the conditions is interpolated by a real member) is proved for "
+             "Convex, StronglyConvex, ConvexLipschitz, ConvexIndicator, ConvexSupport and the graph-defined operator classes. "
+             "Refuted with a witness where PEPit is wrong: skew-symmetric diagonal conditions (F-C04b). Tie: translator + exact correspondence of set_class_constraints() on "
              "all 24 classes and of the two generic generators on arbitrary list pairs.",
         ref="DESIGN.md 5.4",
-        note="sufficiency of the interpolation conditions (a finite primal value is attained by a real member) is the cited "
-             "literature, not proved: that half of the property is partial",
+        note="sufficiency for the smooth classes, QG, RSI/EB, quadratics and linear operators is the cited literature, not "
+             "proved: that half of the property is partial",
         technique="Coq proof over formulas/plans regenerated from the source + model/implementation correspondence"),
     "C07": dict(
         text="Coq theorems: an invariant (one value per point; one gradient per point for differentiable functions; every "
@@ -139,7 +140,7 @@ CLAIMS = {
              "column per sample, the cell (i,j) holds exactly the constraint generated for that ordered pair (the same object "
              "that is in the class-constraint list), 0 elsewhere; the dual table mirrors it cell by cell; names contain "
              "function id and condition and determine the pair for unnamed samples; block-smooth per-block tables likewise "
-             "(after the fix: commit). Refuted for LinearOperator's unnamed, untabulated cross equalities (F-C17b). Tie: "
+             "(after the fix: commits, also for the block-smooth and linear-operator classes, unguarded). Tie: "
              "exact correspondence of tables, labels, names and get_class_constraints_duals() with position-tagged duals.",
         ref="DESIGN.md 5.17",
         note="name injectivity proved for unnamed points only (user names may collide)",
@@ -160,15 +161,15 @@ CLAIMS = {
                   "model/implementation correspondence"),
     "C11": dict(
         text="Coq theorems over an executable model of the 21 MOSEK Task calls PEPit issues: under an explicit decidable "
-             "guard the task denotes exactly the declared SDP (rows, bounds, LMI coupling weights, objective), the "
-             "heuristic modifications commute, and the triple (y, -barsj(k), -barsj(0)) read back satisfies the same "
-             "certificate identity as the cvxpy path; each guard conjunct that excludes a real defect has a _refuted "
-             "theorem with a witness replayed on the real wrapper. Tie: exact comparison of the real MosekWrapper's call "
+             "well-formedness guard (no conjunct excludes a defect any more: three defects were repaired by fix: commits) the "
+             "task denotes exactly the declared SDP (rows, bounds, LMI coupling weights, objective), the heuristic "
+             "modifications commute, and the triple (y, -barsj(k), -barsj(0)) read back satisfies the same certificate "
+             "identity as the cvxpy path; the ignored problem status (F-C11d) is refuted with a witness. Tie: exact comparison of the real MosekWrapper's call "
              "log (running on a recording stand-in mosek module) with the model, end-to-end cvxpy-vs-mosek(stand-in) solves.",
         ref="DESIGN.md 5.11",
         note="MOSEK is not installed: its Optimizer-API semantics and dual sign convention are assumptions encoded in "
              "Model/Mosek.v and harness/standin/mosek (derived from MOSEK's documented primal/dual pair and the signs "
-             "pinned by tests/test_wrappers.py); four known findings F-C11a-d (KNOWN-FINDING lines)",
+             "pinned by tests/test_wrappers.py); one open finding F-C11d",
         technique="Coq proof (induction over sent lists; refutation witnesses by vm_compute) + call-log correspondence "
                   "through a stand-in MOSEK module"),
     "C15": dict(
